@@ -1037,7 +1037,14 @@ fn check_degenerate(c: &DCase) -> Verdict {
         Ok(Some(s)) => {
             if s.sauce_header_len != want {
                 let key = if c.eof { header_len_key(n) } else { "split.header_len|no_eof_nothing_but_sauce".to_string() };
-                return Verdict::fail(key, format!("file of {} bytes ({} content bytes, {n} comment lines, EOF byte {}): sauce_header_len = {}, SAUCE information is {want} bytes", file.len(), c.content.len(), c.eof, s.sauce_header_len));
+                // what a caller of the loader sees (the engine's panic hook is silent; the panic is reported through this message only)
+                let name = file_name(c.fmt);
+                let outcome = match std::panic::catch_unwind(std::panic::AssertUnwindSafe(|| Buffer::from_bytes(&name, false, &file).map(|b| (b.get_width(), b.get_height())))) {
+                    Ok(Ok((w, h))) => format!("Buffer::from_bytes loads a {w}x{h} picture"),
+                    Ok(Err(e)) => format!("Buffer::from_bytes fails: {e}"),
+                    Err(_) => "Buffer::from_bytes panics (content slice end underflows)".to_string(),
+                };
+                return Verdict::fail(key, format!("file of {} bytes ({} content bytes, {n} comment lines, EOF byte {}): sauce_header_len = {}, SAUCE information is {want} bytes; {outcome}", file.len(), c.content.len(), c.eof, s.sauce_header_len));
             }
         }
         Ok(None) => return Verdict::fail("split.not_recognised", format!("no SAUCE found in a file of {} bytes ending in a record", file.len())),
